@@ -391,6 +391,36 @@ pub fn worker(w: &mut Worker) {
         }
     }
 
+    // (j) functions in condition position whose body does not get to its return: an unknown command (a
+    // crash, turned into an error of the condition), an error, an exit - directly, one call down, inside a
+    // loop, in a scoped function; then the script goes on and calls them again
+    {
+        let stops = ["no_such_command_here", "trigger_error oops", "array_pop nohandle", "x = array_join nohandle ,", "goto :nowhere"];
+        let shapes = [
+            "fn broken\nSTOP\nreturn true\nend\nif broken\nx = set 1\nend\nr = not broken\necho done",
+            "fn broken\nSTOP\nreturn true\nend\nfn f\nif broken\nx = set 1\nend\nreturn fine\nend\nif f\nr = set then\nelse\nr = set else\nend\nif f\nend\necho done",
+            "fn <scope> broken\nSTOP\nreturn true\nend\nfn <scope> f\nr = not broken\nreturn ${r}\nend\nlist = array a b c\nfor item in ${list}\nif f ${item}\nend\nwhile f ${item}\ngoto :out${item}\nend\n:out${item}\nend\necho done",
+            "fn broken\nSTOP\nreturn true\nend\nfn f\nv = broken\nreturn ${v}\nend\nn = set 0\nwhile less_than ${n} 3\nn = calc ${n} + 1\nif f\nend\nr = not f\nend\necho done",
+        ];
+        for stop in stops {
+            for shape in shapes {
+                if !w.take() {
+                    continue;
+                }
+                let text = shape.replace("STOP", stop);
+                let cj = json!({"kind": "script", "script": text, "plain_commands": true});
+                w.begin(|| cj.clone());
+                let (env, _o, _e, _h) = quiet_env();
+                let r = guarded(|| runner::run_script(&text, sdk_context(), Some(env)));
+                w.add_transitions(1);
+                match r {
+                    Err(p) => w.fail("panic:function-stopped-in-condition", &format!("script {:?}: panic {}", text, p), cj),
+                    Ok(res) => w.pass(true, hash64(&("function-stopped-in-condition", res.is_ok()))),
+                }
+            }
+        }
+    }
+
     // (h) a function that calls itself without end from condition position. Plain calls are jumps and such
     // a script just never ends; a call in condition position is evaluated by a nested interpreter, so
     // this one uses the native stack up (recorded as a known finding, see KNOWN_FINDINGS.txt)
@@ -612,7 +642,7 @@ pub fn crash_sig(case: &Value, kind: &str) -> String {
     }
 }
 
-pub const RULE: &str = "(a) every registered command of the standard library (discovered at run time; excluded: read, sleep, exec, spawn, exit, watchdog, everything under std::net, test_directory/test_file, cd, temp_file/temp_dir) x every argument tuple up to the arity bound from a 28-value pool {empty, NaN, a byte array that is not UTF-8 (a character cut off at its end), a map whose keys include 'a=b', the empty key and a key with a line break, a lone line break, multi-byte text at two byte alignments, a, 'a b', j (the name of a decoded JSON array variable set whose length entry is 99999999999), multi-byte, -1, 0, 1, 2.5, 20-digit number, i64::MAX, i64::MIN, live array/map/set/byte-array handle, an array containing its own handle, a map whose child array points back to it, an array holding a map that holds itself (a cycle not through the root), released handle, -r, text with a line break, a flag (each of the 18 option flags the library's commands know)}, each on a freshly prepared context in a scratch working directory that is reset before every case to the tree {file a, file 0, directory 1 with a file} (the quick tier adds every 'flag operand operand' triple); (b) 15 two-step histories (use after release, push/pop --copy of undefined and repeated names, removed or shadowed commands used by library scripts); (c) every script of up to n lines over 24 awkward lines (unmatched end/else/elseif/return, fn without name or end, for without array, goto to a missing label, goto loops, calls of undefined functions, ...) run with every command counted and the halt flag raised after 400 command entries; (f) a user function and an alias of it as the condition of if / elseif / while / not (and called plainly) for seven ways the function can end; (g) aliases that stand for themselves directly and through one another, and user functions invoked through eval; (d) a file that includes itself and a two-file include cycle; (e) for-in loops whose body clears, pops, removes from, releases, grows, replaces or unsets the array being iterated (sizes 0..3, three body shapes). Oracle: control returns with Ok or Err; a panic is caught and reported; an abort (stack overflow) or a hang (more than 4 s of CPU time, or 40 s of wall time, without returning) kills the worker process, is pinned to the case in flight by the supervisor and reported. (i) eleven commands that write or read a family of variables under a name (json_parse, json_encode, read_properties, unset_all_vars --prefix ...) run twice after one of ten members of that family was set to one of twelve awkward values (sizes near 2^64, negative, fractional, NaN, empty), and json_parse after a json_parse whose keys spell such names";
+pub const RULE: &str = "(a) every registered command of the standard library (discovered at run time; excluded: read, sleep, exec, spawn, exit, watchdog, everything under std::net, test_directory/test_file, cd, temp_file/temp_dir) x every argument tuple up to the arity bound from a 28-value pool {empty, NaN, a byte array that is not UTF-8 (a character cut off at its end), a map whose keys include 'a=b', the empty key and a key with a line break, a lone line break, multi-byte text at two byte alignments, a, 'a b', j (the name of a decoded JSON array variable set whose length entry is 99999999999), multi-byte, -1, 0, 1, 2.5, 20-digit number, i64::MAX, i64::MIN, live array/map/set/byte-array handle, an array containing its own handle, a map whose child array points back to it, an array holding a map that holds itself (a cycle not through the root), released handle, -r, text with a line break, a flag (each of the 18 option flags the library's commands know)}, each on a freshly prepared context in a scratch working directory that is reset before every case to the tree {file a, file 0, directory 1 with a file} (the quick tier adds every 'flag operand operand' triple); (b) 15 two-step histories (use after release, push/pop --copy of undefined and repeated names, removed or shadowed commands used by library scripts); (c) every script of up to n lines over 24 awkward lines (unmatched end/else/elseif/return, fn without name or end, for without array, goto to a missing label, goto loops, calls of undefined functions, ...) run with every command counted and the halt flag raised after 400 command entries; (f) a user function and an alias of it as the condition of if / elseif / while / not (and called plainly) for seven ways the function can end; (g) aliases that stand for themselves directly and through one another, and user functions invoked through eval; (d) a file that includes itself and a two-file include cycle; (e) for-in loops whose body clears, pops, removes from, releases, grows, replaces or unsets the array being iterated (sizes 0..3, three body shapes). Oracle: control returns with Ok or Err; a panic is caught and reported; an abort (stack overflow) or a hang (more than 4 s of CPU time, or 40 s of wall time, without returning) kills the worker process, is pinned to the case in flight by the supervisor and reported. (i) eleven commands that write or read a family of variables under a name (json_parse, json_encode, read_properties, unset_all_vars --prefix ...) run twice after one of ten members of that family was set to one of twelve awkward values (sizes near 2^64, negative, fractional, NaN, empty), and json_parse after a json_parse whose keys spell such names. (j) functions in condition position whose body does not get to its return (unknown command, three failing commands, goto to a missing label) directly, one call down, scoped inside loops, called again afterwards";
 pub const ASSUMPTIONS: &[&str] = &["values that would request huge allocations are not in the pool (allocation failure aborts by design of Rust)", "loop constructs are allowed to loop: they are ended through the halt flag, which is the embedder's documented way"];
 pub const EXHAUSTIVE: bool = true;
 pub const WALL_CAP_S: (u64, u64) = (58, 1700);
